@@ -12,3 +12,10 @@ prop("C13tei",
      generators=["C13tei"],
      rule="malformed TEI streams: commands out of order, position before teinewgame / for another size, go on finished games, any go arguments (tiny, zero, wrapped-negative budgets: outcome class only), bad sizes, mutated position lines, garbage words, random ASCII lines, quit mid-stream, missing final newline",
      assumptions=["ASCII streams"])
+prop("C20",
+     generators=["C20"],
+     exhaustive=True,
+     rule="EXHAUSTIVE: every opening line of every variant {center, doublestack, cairn} x bot colour {W,B} x size 4..6 (thorough: 4..8): all first-stone squares, then at every unscripted ply every legal move the variant's own rule check accepts (`fpaopts` lines compare the accepted sets themselves, `fpa` lines the complete opening: scripted moves, their legality on the board, resignations = self-rejection), driven through the real Friendly.GetMove with a stub searcher; plus isCentered/isCenterAdjacent/distance/dir on their whole small domains and adjacent() on random boards. Distinct op lines; trivial = none",
+     assumptions=["the bot's unscripted own plies (the two first stones) are treated as free choices of its searcher: all squares are enumerated",
+                  "the opponent only plays moves that are legal on the board (the server enforces this) and, for the claim, accepted by the rule check"],
+     why="the Lean model of cmd/internal/playtak/fpa.go (fixed) is proved to script only legal, self-accepted moves (Props/C20.lean); the real code disagrees with it on this opening line")
